@@ -37,7 +37,11 @@ def margin_ok(d, edges, maxlag_abs, tol=1e-9):
         return True
     pts = np.array(pts)
     rel = np.abs(d[:, None] - pts[None, :]) / np.maximum(1.0, np.abs(pts[None, :]))
-    return bool(rel.min() > tol)
+    near = rel <= tol
+    # a single pair sitting exactly on an edge is the pair the edge was derived from (largest distance, a quantile,
+    # the median): after an inexact transform the edge moves with it. Near misses and tied pairs can flip.
+    single_exact = (near.sum(axis=0) == 1) & ((rel == 0).sum(axis=0) == 1)
+    return bool(np.all((near.sum(axis=0) == 0) | single_exact))
 
 
 def transforms(rng, case, coords, values):
